@@ -19,6 +19,8 @@ SHAPE.update({n: (1, 1) for n in "CRX CRY CRZ CPHASE CNOT CSIGN CZ CY CS CT".spl
 SHAPE.update({n: (0, 2) for n in "SWAP ISWAP SQRTSWAP SQRTISWAP BERKELEY SWAPalpha MS RZX".split()})
 SHAPE.update({"FREDKIN": (1, 2), "TOFFOLI": (2, 1), "GLOBALPHASE": (0, 0)})
 PARAMETRIC = set("RX RY RZ PHASEGATE CRX CRY CRZ CPHASE GLOBALPHASE SWAPalpha".split())
+# other spellings GATE_CLASS_MAP accepts (not names of the model alphabet GNAMES): shapes for the harnesses
+ALIAS_SHAPE = {"H": (0, 1), "CX": (1, 1), "iSWAP": (0, 2), "SWAPALPHA": (0, 2)}
 BASES = ["CSIGN", "ISWAP", "SQRTSWAP", "SQRTISWAP"]
 T1, T2 = 0.7310585786300049, 1.9151305816892773
 PROBE_LABEL = "probe-label"
@@ -350,6 +352,61 @@ def rule_modules(gate_rules, basis_rules):
     return out
 
 
+# ---- alias names: `_gate_<X>` for a name X outside the model alphabet ------------------------------------
+
+NOT_RULES = {"IGNORED", "NOTIMPLEMENTED", "basis_2q"}
+B2_NAMES = {"CNOT", "CSIGN", "ISWAP", "SQRTSWAP", "SQRTISWAP"}
+
+
+def extract_aliases(gate_rules, gate_labs):
+    """Every `_gate_<X>` of _decompose.py whose X is not a name of the model alphabet must be an ALIAS: GATE_CLASS_MAP
+    maps X to the class of a name Y of the alphabet, Y is rewritten by a template rule and is none of the names
+    resolve_gates compares literally (two-qubit basis gates, SWAP, the Paulis) — then resolve_gates treats a gate named X
+    exactly like one named Y iff the rule of X IS the rule of Y; that is extracted (probe gates named X) and compared,
+    labels included.  -> {X: Y}.  Anything else: TranslatorError."""
+    dec, Gate, QubitCircuit = _mods()
+    from qutip_qip.operations import GATE_CLASS_MAP
+    out = {}
+    for fn in sorted(n for n in dir(dec) if n.startswith("_gate_")):
+        x = fn[len("_gate_"):]
+        if x in GNAMES or x in NOT_RULES or not callable(getattr(dec, fn)):
+            continue
+        if x not in GATE_CLASS_MAP:
+            raise TranslatorError(f"{fn}: a rule for the name {x!r}, which is neither in the model alphabet nor a gate class")
+        ys = [y for y in GNAMES if y in GATE_CLASS_MAP and GATE_CLASS_MAP[y] is GATE_CLASS_MAP[x]]
+        if len(ys) != 1:
+            raise TranslatorError(f"{fn}: the class of {x!r} is the class of {ys} in the model alphabet (need exactly one)")
+        y = ys[0]
+        if gate_rules[y][0] != "templ" or y in B2_NAMES or y in ("SWAP", "X", "Y", "Z") or y in PARAMETRIC:
+            raise TranslatorError(f"{fn}: alias {x!r} of {y!r}: the model covers aliases of fixed-angle gates with a "
+                                  "template rule that resolve_gates does not compare by name")
+        nc, nt = SHAPE[y]
+        outs = []
+        for th in (T1, T2):
+            g = Gate(x, targets=[11 + i for i in range(nt)] if nt else None, controls=[21 + i for i in range(nc)] if nc else None,
+                     arg_label=PROBE_LABEL, control_value=(2 ** nc - 1 if nc else None), classical_controls=[3, 1],
+                     classical_control_value=2, style={"probe": True})
+            o = []
+            getattr(dec, fn)(g, o)
+            outs.append(o)
+        tpl, labs = _templates(outs[0], outs[1], [11 + i for i in range(nt)], [21 + i for i in range(nc)], Gate, fn)
+        if tpl != gate_rules[y][1] or labs != gate_labs[y]:
+            raise TranslatorError(f"{fn}: the rule of the alias {x!r} is not the rule of {y!r}")
+        out[x] = y
+    return out
+
+
+def render_aliases(aliases):
+    rows = ", ".join(f'("{x}", .{y})' for x, y in sorted(aliases.items()))
+    return ("import QipVerif.Model.Circuit\n"
+            "/-! GENERATED by py/translate/decomp.py from /repo/src/qutip_qip/circuit/_decompose.py and operations (GATE_CLASS_MAP)\n"
+            "— do not edit.  Alias names with a decomposition rule: `_gate_<alias>` IS the rule of the canonical name (extracted\n"
+            "with probe gates carrying the alias name and compared, labels included) and GATE_CLASS_MAP maps both names to one class. -/\n"
+            "namespace QipVerif.Gen\nopen QipVerif\n\n"
+            f"def ruleAlias : List (String × GName) := [{rows}]\n\n"
+            "end QipVerif.Gen\n")
+
+
 def string_basis_exact():
     """fixes/C03-3: does resolve_gates read a basis given as a string as ONE gate name?  (the code as found tests
     `gate.name in basis` on the string, i.e. for substrings: S passes in "CSIGN", a gate named NOT in "CNOT")"""
@@ -405,6 +462,11 @@ def regenerate(seed=0):
     changed = write_if_changed(os.path.join(gdir, "DecompTables.lean"), render(gate_rules, basis_rules))
     changed |= write_if_changed(os.path.join(gdir, "DecompLabels.lean"),
                                 render_labels(gate_rules, basis_rules, gate_labs, basis_labs))
+    try:
+        aliases = extract_aliases(gate_rules, gate_labs)
+        changed |= write_if_changed(os.path.join(gdir, "DecompAlias.lean"), render_aliases(aliases))
+    except TranslatorError as e:
+        verr = verr or e
     mods = rule_modules(gate_rules, basis_rules)
     for mod, src in mods.items():
         changed |= write_if_changed(os.path.join(gdir, mod + ".lean"), src)
